@@ -1229,6 +1229,10 @@ class Message(ABC):
                 # Booleans use a varint encoding, so convert it to true/false.
                 value = value > 0
             elif meta.proto_type == TYPE_ENUM:
+                # Enum numbers are int32 on the wire: negative numbers arrive
+                # sign-extended to 64 bits, so recover the sign first.
+                value = value & 0xFFFFFFFF
+                value = (value ^ 0x80000000) - 0x80000000
                 # Convert enum ints to python enum instances
                 value = self._betterproto.cls_by_field[field_name].try_value(value)
         elif wire_type in (WIRE_FIXED_32, WIRE_FIXED_64):
